@@ -1,6 +1,6 @@
 (* C13 (stretch) -- the closed-form terms of magnet_cuboid_Bfield, as TRANSLATED from /repo on this run
    (Gen/GenCuboid.v), are eight-corner sums; hence they are additive when the cuboid is cut by an axis-aligned plane. *)
-From Coq Require Import Reals List Lra Psatz.
+From Coq Require Import Reals List Lra Psatz Lia.
 From MV Require Import Gen.GenCuboid Model.ReprModel Proofs.ReprProofs.
 Import ListNotations.
 Local Open Scope R_scope.
@@ -104,4 +104,157 @@ Proof.
     replace (p * (u - v) * q * (u' - v')) with (p * (- u + v) * q * (- u' + v')) by ring end.
   rewrite ln_prod4; [rewrite ln_prod4; [ring|..]|..];
     match goal with |- 0 < - ?W + rad ?X ?Y ?Z => apply (rad_minus_pos_y X Y Z) || apply (rad_minus_pos_z X Y Z); auto end.
+Qed.
+
+(* ---------------- all six terms, indexed as in cuboid_ff / cuboid_contrib *)
+Definition term (at2 : R -> R -> R) (k : nat) (x y z a b c : R) : R :=
+  let '(t0, t1, t2, t3, t4, t5) := cuboid_ff at2 x y z a b c in nth k [t0; t1; t2; t3; t4; t5] 0.
+Definition cornerF (at2 : R -> R -> R) (k : nat) : R -> R -> R -> R :=
+  nth k [Fx at2; Fy at2; Fz at2; Gx; Gy; Gz] (fun _ _ _ => 0).
+
+Lemma term_corner at2 k x y z a b c : (k < 6)%nat -> off_planes x y z a b c ->
+  term at2 k x y z a b c = - corner_sum (cornerF at2 k) (x - a) (x + a) (y - b) (y + b) (z - c) (z + c).
+Proof.
+  intros Hk Hoff.
+  destruct k as [|[|[|[|[|[|k]]]]]]; try (exfalso; lia).
+  - apply (ff1x_corner at2).
+  - apply (ff1y_corner at2).
+  - apply (ff1z_corner at2).
+  - apply (ff2x_corner x y z a b c Hoff).
+  - apply (ff2y_corner x y z a b c Hoff).
+  - apply (ff2z_corner x y z a b c Hoff).
+Qed.
+
+(* the terms of the Cuboid [x0,x1] x [y0,y1] x [z0,z1] seen from p = (px,py,pz), everything in ONE frame:
+   magnet_cuboid_Bfield is called with the observer relative to the centre and with the half sizes *)
+Definition box_term (at2 : R -> R -> R) (k : nat) (px py pz x0 x1 y0 y1 z0 z1 : R) : R :=
+  term at2 k (px - (x0 + x1) / 2) (py - (y0 + y1) / 2) (pz - (z0 + z1) / 2)
+             ((x1 - x0) / 2) ((y1 - y0) / 2) ((z1 - z0) / 2).
+
+Lemma box_term_corner at2 k px py pz x0 x1 y0 y1 z0 z1 : (k < 6)%nat ->
+  px <> x0 -> px <> x1 -> py <> y0 -> py <> y1 -> pz <> z0 -> pz <> z1 ->
+  box_term at2 k px py pz x0 x1 y0 y1 z0 z1 =
+  - corner_sum (cornerF at2 k) (px - x1) (px - x0) (py - y1) (py - y0) (pz - z1) (pz - z0).
+Proof.
+  intros Hk H1 H2 H3 H4 H5 H6. unfold box_term. rewrite term_corner; [|exact Hk|].
+  - f_equal. f_equal; field.
+  - unfold off_planes. repeat split; intros E.
+    + apply H2. lra.
+    + apply H1. lra.
+    + apply H4. lra.
+    + apply H3. lra.
+    + apply H6. lra.
+    + apply H5. lra.
+Qed.
+
+Theorem box_term_cut_x at2 k px py pz x0 xm x1 y0 y1 z0 z1 : (k < 6)%nat ->
+  px <> x0 -> px <> xm -> px <> x1 -> py <> y0 -> py <> y1 -> pz <> z0 -> pz <> z1 ->
+  box_term at2 k px py pz x0 x1 y0 y1 z0 z1 =
+  box_term at2 k px py pz x0 xm y0 y1 z0 z1 + box_term at2 k px py pz xm x1 y0 y1 z0 z1.
+Proof.
+  intros. rewrite !box_term_corner by assumption.
+  rewrite (corner_sum_cut_x _ (px - x1) (px - xm) (px - x0)). ring.
+Qed.
+
+Theorem box_term_cut_y at2 k px py pz x0 x1 y0 ym y1 z0 z1 : (k < 6)%nat ->
+  px <> x0 -> px <> x1 -> py <> y0 -> py <> ym -> py <> y1 -> pz <> z0 -> pz <> z1 ->
+  box_term at2 k px py pz x0 x1 y0 y1 z0 z1 =
+  box_term at2 k px py pz x0 x1 y0 ym z0 z1 + box_term at2 k px py pz x0 x1 ym y1 z0 z1.
+Proof.
+  intros. rewrite !box_term_corner by assumption.
+  rewrite (corner_sum_cut_y _ (px - x1) (px - x0) (py - y1) (py - ym) (py - y0)). ring.
+Qed.
+
+Theorem box_term_cut_z at2 k px py pz x0 x1 y0 y1 z0 zm z1 : (k < 6)%nat ->
+  px <> x0 -> px <> x1 -> py <> y0 -> py <> y1 -> pz <> z0 -> pz <> zm -> pz <> z1 ->
+  box_term at2 k px py pz x0 x1 y0 y1 z0 z1 =
+  box_term at2 k px py pz x0 x1 y0 y1 z0 zm + box_term at2 k px py pz x0 x1 y0 y1 zm z1.
+Proof.
+  intros. rewrite !box_term_corner by assumption.
+  rewrite (corner_sum_cut_z _ (px - x1) (px - x0) (py - y1) (py - y0) (pz - z1) (pz - zm) (pz - z0)). ring.
+Qed.
+
+(* ---------------- the B-field that magnet_cuboid_Bfield assembles from the terms when no octant flip happens
+   (observer in the bottQ4 octant x >= 0, y <= 0, z <= 0 of the box: all qsigns are 1), through the TRANSLATED table *)
+Definition pick3 (k : nat) (v : R * R * R) : R := let '(a, b, c) := v in nth k [a; b; c] 0.
+
+Definition combine_terms (tbl : list (nat * nat * bool * nat)) (pol : R * R * R) (j : nat) (t : nat -> R) : R :=
+  fold_right (fun e acc =>
+                let '(k, j', neg, i) := e in
+                if Nat.eqb j' j then (if neg : bool then - pick3 k pol * t i else pick3 k pol * t i) + acc else acc)
+             0 tbl / (4 * PI).
+
+Definition box_B_noflip (at2 : R -> R -> R) (pol : R * R * R) (j : nat) (px py pz x0 x1 y0 y1 z0 z1 : R) : R :=
+  combine_terms cuboid_contrib pol j (fun i => box_term at2 i px py pz x0 x1 y0 y1 z0 z1).
+
+Lemma combine_terms_add tbl pol j (t u v : nat -> R) :
+  Forall (fun e => let '(_, _, _, i) := e in t i = u i + v i) tbl ->
+  combine_terms tbl pol j t = combine_terms tbl pol j u + combine_terms tbl pol j v.
+Proof.
+  unfold combine_terms. intros H.
+  assert (E : forall l, Forall (fun e : nat * nat * bool * nat => let '(_, _, _, i) := e in t i = u i + v i) l ->
+    fold_right (fun e acc => let '(k, j', neg, i) := e in
+        if Nat.eqb j' j then (if neg : bool then - pick3 k pol * t i else pick3 k pol * t i) + acc else acc) 0 l =
+    fold_right (fun e acc => let '(k, j', neg, i) := e in
+        if Nat.eqb j' j then (if neg : bool then - pick3 k pol * u i else pick3 k pol * u i) + acc else acc) 0 l +
+    fold_right (fun e acc => let '(k, j', neg, i) := e in
+        if Nat.eqb j' j then (if neg : bool then - pick3 k pol * v i else pick3 k pol * v i) + acc else acc) 0 l).
+  { induction l as [|[[[k j'] neg] i] l IH]; intros Hl; simpl; [ring|].
+    inversion Hl as [|? ? Hi Hl']; subst. rewrite (IH Hl'). rewrite Hi.
+    destruct (Nat.eqb j' j); destruct neg; ring. }
+  rewrite (E tbl H). pose proof PI_RGT_0. field. lra.
+Qed.
+
+Lemma cuboid_contrib_indices : Forall (fun e : nat * nat * bool * nat => let '(_, _, _, i) := e in (i < 6)%nat) cuboid_contrib.
+Proof. unfold cuboid_contrib. repeat constructor. Qed.
+
+Theorem box_B_noflip_cut_x at2 pol j px py pz x0 xm x1 y0 y1 z0 z1 :
+  px <> x0 -> px <> xm -> px <> x1 -> py <> y0 -> py <> y1 -> pz <> z0 -> pz <> z1 ->
+  box_B_noflip at2 pol j px py pz x0 x1 y0 y1 z0 z1 =
+  box_B_noflip at2 pol j px py pz x0 xm y0 y1 z0 z1 + box_B_noflip at2 pol j px py pz xm x1 y0 y1 z0 z1.
+Proof.
+  intros. unfold box_B_noflip. apply combine_terms_add.
+  eapply Forall_impl; [|apply cuboid_contrib_indices]. intros [[[k j'] neg] i] Hi.
+  apply box_term_cut_x; assumption.
+Qed.
+
+Theorem box_B_noflip_cut_y at2 pol j px py pz x0 x1 y0 ym y1 z0 z1 :
+  px <> x0 -> px <> x1 -> py <> y0 -> py <> ym -> py <> y1 -> pz <> z0 -> pz <> z1 ->
+  box_B_noflip at2 pol j px py pz x0 x1 y0 y1 z0 z1 =
+  box_B_noflip at2 pol j px py pz x0 x1 y0 ym z0 z1 + box_B_noflip at2 pol j px py pz x0 x1 ym y1 z0 z1.
+Proof.
+  intros. unfold box_B_noflip. apply combine_terms_add.
+  eapply Forall_impl; [|apply cuboid_contrib_indices]. intros [[[k j'] neg] i] Hi.
+  apply box_term_cut_y; assumption.
+Qed.
+
+Theorem box_B_noflip_cut_z at2 pol j px py pz x0 x1 y0 y1 z0 zm z1 :
+  px <> x0 -> px <> x1 -> py <> y0 -> py <> y1 -> pz <> z0 -> pz <> zm -> pz <> z1 ->
+  box_B_noflip at2 pol j px py pz x0 x1 y0 y1 z0 z1 =
+  box_B_noflip at2 pol j px py pz x0 x1 y0 y1 z0 zm + box_B_noflip at2 pol j px py pz x0 x1 y0 y1 zm z1.
+Proof.
+  intros. unfold box_B_noflip. apply combine_terms_add.
+  eapply Forall_impl; [|apply cuboid_contrib_indices]. intros [[[k j'] neg] i] Hi.
+  apply box_term_cut_z; assumption.
+Qed.
+
+From MV Require Import Model.ReprExec Proofs.ReprExecProofs.
+Lemma C13_nonvacuous_witness2 :
+  (let rows : list zsrow := [((1, 2, 3), (1, 0, 0), (1, 2, 3, 0, 90));
+                             ((4, 5, 6), (0, 1, 0), (1, 2, 3, 0, 360));
+                             ((7, 8, 9), (0, 0, 1), (0, 2, 3, 0, 360))]%Z in
+   let outer : list zcrow := [((4, 5, 6), (0, 1, 0), (4, 3)); ((7, 8, 9), (0, 0, 1), (4, 3))]%Z in
+   let inner : list zcrow := [((4, 5, 6), (0, 1, 0), (2, 3))]%Z in
+   map (@mask_segment ZNum) rows = [true; false; false] /\
+   nth_error (@seg_internal ZNum stub_seg stub_cyl FB rows) 1 =
+     Some (@vsub3 ZNum (nth 0 (stub_cyl FB outer) (0, 0, 0)%Z) (nth 0 (stub_cyl FB inner) (0, 0, 0)%Z)) /\
+   nth_error (@seg_internal ZNum stub_seg stub_cyl FB rows) 2 = nth_error (stub_cyl FB outer) 1) /\
+  (let mesh : list (tri3 z3) := [((0, 0, 0), (1, 0, 0), (0, 1, 0)); ((1, 0, 0), (0, 1, 0), (0, 0, 1))]%Z in
+   mesh_vertices z3_eqb z3_ltb mesh = [(0, 0, 0); (0, 0, 1); (0, 1, 0); (1, 0, 0)]%Z /\
+   mesh_faces z3_eqb z3_ltb mesh = [(0, 3, 2); (3, 2, 1)]%nat) /\
+  @sphere_out RNum (1, 0, 0)%R 1%R = true /\
+  (3 <> -1 /\ 3 <> 0 /\ 3 <> 1 /\ -2 <> -1 /\ -2 <> 1 /\ off_planes 3 (-2) (-2) 1 1 1).
+Proof.
+  destruct C13_nonvacuous_witness as (A & B & C). repeat split; try apply A; try apply B; try exact C;
+    unfold off_planes; try lra.
 Qed.
